@@ -32,6 +32,15 @@ pub fn evaluate_guarded(prop: &dyn Prop, case: &Value) -> Outcome {
 /// protocol).
 pub fn worker_main(prop: &dyn Prop) -> ! {
     install_panic_hook();
+    // A runaway allocation must kill this worker (alloc failure => abort => "crash" verdict),
+    // not the machine.
+    unsafe {
+        let lim = libc::rlimit {
+            rlim_cur: 3 << 30,
+            rlim_max: 3 << 30,
+        };
+        libc::setrlimit(libc::RLIMIT_AS, &lim);
+    }
     let out_fd = unsafe { libc::dup(1) };
     unsafe {
         libc::dup2(2, 1);
